@@ -9,7 +9,7 @@ def run(tier, seed, replay=None):
     r = vlib.tlc("AdSchema", ("c13.cfg", vlib.cfg_text(dict(MaxList=2, EXPORT=True), ["RoundTrip", "Deterministic", "AbsentIsNotEmpty", "ExportCase"])), timeout=3000, tag="c13")
     ck.add_tlc("AdSchema", r, "enumeration of every advertisement / entry-chunk shape; store laws on the axiomatised codec")
     rep = vlib.run_harness(binary, ["c13", "-cases", os.path.join(r.workdir, "c13_cases.ndjson"), "-chunks", os.path.join(r.workdir, "c13_chunks.ndjson"),
-                                    "-fuzz-every", "40" if tier == "quick" else "4", "-seed", str(seed)], timeout=7000)
+                                    "-fuzz-every", "40" if tier == "quick" else "1", "-seed", str(seed)], timeout=7000)
     if rep.get("extra", {}).get("read_error") or rep["inconclusive"]:
         raise vlib.Infra("c13 harness: %s" % rep.get("extra"))
     ck.add_report(rep)
